@@ -1,4 +1,5 @@
 import WK.Prelude.Hex
+import WK.Spec.C21
 /-
   C40 — executable model of the message event projection:
     pkg/db/meta/table_message_event.go        (reducer, applied-event table, cursor)
@@ -240,7 +241,7 @@ def normalize (r : RawEvent) : Option Event :=
     let vis := if vis = [] then visPublic else vis
     some ⟨⟨ch, r.ct, no⟩, id, key, t, vis, r.occ, r.pl, r.upd⟩
 
-inductive Err | ok | invalid | cachemiss
+inductive Err | ok | invalid | cachemiss | notleader
 deriving DecidableEq, Repr
 
 /-- table-level entry point on a raw event -/
@@ -267,10 +268,44 @@ structure Session where
   applied : List (Bytes × Result) := []
 deriving Repr
 
+/-- the part of the routing table the leader cache depends on: the leaders of the two physical
+    Slots and, per hash slot, the Slot that owns it (1 or 2).  The local node is node 1. -/
+structure Route where
+  l1 : Nat := 1
+  l2 : Nat := 2
+  own : List Nat := [1, 1, 1, 1]
+deriving DecidableEq, Repr
+
 structure Node where
   db : DB := {}
   cache : List (MsgKey × Session) := []
+  route : Route := {}
 deriving Repr
+
+/-- `routing.HashSlotForKey(channelID, count)` (CRC-32/IEEE mod count; spec of property C21) -/
+def hashSlotOf (ch : Bytes) (count : Nat) : Nat :=
+  (WK.C21.specHashSlot (ch.map fun b => BitVec.ofNat 8 b.toNat) (BitVec.ofNat 16 count)).toNat
+
+/-- leader of the Slot that owns hash slot `h` (0 = unknown) -/
+def Route.leaderOf (r : Route) (h : Nat) : Nat :=
+  match r.own[h]? with
+  | some 1 => r.l1
+  | some 2 => r.l2
+  | _ => 0
+
+/-- `messageEventLostLocalAuthorityHashSlots`: hash slots led by the local node before and not after -/
+def lostSlots (before after : Route) : List Nat :=
+  (List.range before.own.length).filter fun h => before.leaderOf h == 1 && after.leaderOf h != 1
+
+/-- `updateRouteAuthorityTable` → `clearMessageEventStreamCacheForLostLocalAuthority` →
+    `removeHashSlotsObserved`: sessions of channels whose hash slot lost local authority are dropped -/
+def setRoute (n : Node) (r : Route) : Node :=
+  let lost := lostSlots n.route r
+  { n with route := r,
+           cache := n.cache.filter fun ks => !(lost.contains (hashSlotOf ks.1.ch n.route.own.length)) }
+
+/-- is the local node the leader for this channel? -/
+def Node.leads (n : Node) (ch : Bytes) : Bool := n.route.leaderOf (hashSlotOf ch n.route.own.length) == 1
 
 /-- `cachedMessageEventState` -/
 def cachedLane (ev : Event) : Lane :=
@@ -358,6 +393,7 @@ def nstep (n : Node) (r : RawEvent) : Node × Err × Option Result :=
   match normalize r with
   | none => (n, .invalid, none)
   | some ev =>
+    if !n.leads ev.msg.ch then (n, .notleader, none) else
     match ev.ty with
     | .open_ | .delta | .snapshot =>
       let (c, res) := appendCached n.cache ev
@@ -368,7 +404,7 @@ def nstep (n : Node) (r : RawEvent) : Node × Err × Option Result :=
       else
         let evs := os.map (flushEvent ev) ++ [ev]
         let (db', rs) := appendAll n.db evs
-        ({ db := db', cache := adel ev.msg n.cache }, .ok, rs.getLast?)
+        ({ n with db := db', cache := adel ev.msg n.cache }, .ok, rs.getLast?)
     | _ =>
       let ev' : Event := match aget ev.msg n.cache with
         | none => ev
@@ -377,7 +413,7 @@ def nstep (n : Node) (r : RawEvent) : Node × Err × Option Result :=
           | none => ev
           | some st => if st.snap = .none then ev else { ev with pl := mergeTerminal ev.pl st.snap (snapIsJSON st.snap) }
       let (db', res) := append n.db ev'
-      ({ db := db', cache := markPersisted n.cache ev' res }, .ok, some res)
+      ({ n with db := db', cache := markPersisted n.cache ev' res }, .ok, some res)
 
 /-- loss of the leader's cache (restart, leadership move) -/
 def loseCache (n : Node) : Node := { n with cache := [] }
